@@ -40,6 +40,7 @@ class Spec:
         self.nroots = 0
         self.pos = 0
         self.unspecified = set()   # names of records whose attachments are not specified
+        self.adapters = {}
 
     def th(self, t):
         return self.threads.setdefault(t, {"guards": [], "scopes": [], "alive": True, "touched": False})
@@ -56,7 +57,7 @@ class Spec:
         s = self.top(t)
         if s is None or s["kind"] != "parent":
             return None
-        par = ("span", s["open"][-1]) if s["open"] else None
+        par = ("span", s["open"][-1]["name"]) if s["open"] else None
         return [dict(it, parent=par or it["parent"]) for it in s["items"]]
 
     def ctx_of_items(self, items):
@@ -170,27 +171,7 @@ class Spec:
                         self.touch(t)
                         sp["attached"].append((it["root"], ("event", name, props)))
         elif op == "drop":
-            sp = self.spans.pop(a[0])
-            if sp is None:
-                return
-            for it in sp["items"]:
-                if it["sampled"]:
-                    self.touch(t)
-                    att = [x for (rk, x) in sp["attached"] if rk == it["root"]]
-                    props = list(sp["props"])
-                    events = []
-                    for x in att:
-                        if x[0] == "props":
-                            props += x[1]
-                        else:
-                            events.append((x[1], x[2]))
-                    self.deliver(sp["name"], it, it["parent"], props, events, "span")
-            if sp["root_key"]:
-                self.touch(t)
-                if sp["root_key"] != "U":
-                    tr = self.traces[sp["root_key"]]
-                    tr["commit_pos"] = pos
-                    tr["commit_thread"] = t
+            self.drop_record(t, self.spans.pop(a[0]), pos)
         elif op == "cancel":
             sp = self.spans[a[0]]
             if sp is not None and sp["root_key"]:
@@ -210,14 +191,7 @@ class Spec:
             tok = self.cur_token(t)
             self.ctx_obs.append((pos, self.ctx_of_items(tok) if tok else None))
         elif op == "scope":
-            sp = self.spans[a[0]]
-            if sp is None or len(th["scopes"]) >= STACK_CAP:
-                th["guards"].append(("scope", None))
-                return
-            sc = {"kind": "parent", "items": self.issue(sp), "sampled": any(it["sampled"] for it in sp["items"]),
-                  "open": [], "entries": [], "qlen": 0, "owner": sp, "to_owner": []}
-            th["scopes"].append(sc)
-            th["guards"].append(("scope", sc))
+            self.open_scope(t, self.spans[a[0]])
         elif op == "collectorStart":
             if len(th["scopes"]) >= STACK_CAP:
                 th["guards"].append(("coll", None))
@@ -231,10 +205,10 @@ class Spec:
             if sc is None or not sc["sampled"] or sc["qlen"] >= QUEUE_CAP:
                 th["guards"].append(("local", None, None))
                 return
-            e = {"name": name, "parent": ("span", sc["open"][-1]) if sc["open"] else None, "props": [], "events": []}
+            e = {"name": name, "parent": ("span", sc["open"][-1]["name"]) if sc["open"] else None, "props": [], "events": []}
             sc["entries"].append(e)
             sc["qlen"] += 1
-            sc["open"].append(name)
+            sc["open"].append(e)
             th["guards"].append(("local", e, sc))
         elif op == "close":
             g = th["guards"].pop()
@@ -289,11 +263,37 @@ class Spec:
         elif op == "spam":
             if self.reporter:
                 self.touch(t)
-        # toRecords, cycle, flush, cycBegin, cycStep, stats: no effect on the expectation
+        elif op == "adNew":
+            name, kind, arg = a[0], a[1], a[2]
+            if kind == "enterOnPoll":
+                self.adapters[name] = {"kind": kind, "name": unhx(arg), "held": False, "span": None, "call": None}
+            else:
+                self.adapters[name] = {"kind": kind, "held": True, "span": self.spans.pop(arg), "call": None}
+        elif op == "adPoll":
+            ad = self.adapters[a[0]]
+            ad["call"] = a[1]
+            if ad["kind"] == "enterOnPoll":
+                self.apply("%d localEnter %s" % (t, hx(ad["name"])), pos)
+            elif ad["held"]:
+                self.open_scope(t, ad["span"])
+            else:
+                th["guards"].append(("scope", None))
+        elif op == "adEnd":
+            ad = self.adapters[a[0]]
+            self.apply("%d close" % t, pos)
+            if ad_finishes(ad["kind"], ad["call"], a[1]) and ad["held"]:
+                ad["held"] = False
+                self.drop_record(t, ad["span"], pos)
+            ad["call"] = None
+        elif op == "adDrop":
+            ad = self.adapters.pop(a[0])
+            if ad["held"]:
+                self.drop_record(t, ad["span"], pos)
+        # toRecords, cycle, flush, cycBegin, cycStep, stats, cycleAtPush, inlineReport, procstats, tlsProbe: no effect on the expectation
 
     def attach_local(self, sc, a):
         if sc["open"]:
-            e = [x for x in sc["entries"] if x["name"] == sc["open"][-1]][0]
+            e = sc["open"][-1]
             if a[0] == "props":
                 e["props"] += a[1]
             else:
@@ -302,6 +302,44 @@ class Spec:
             sc["to_owner"].append(a)
         else:
             sc.setdefault("orphans", []).append(a)   # collector scope, no local open: parent id 0
+
+    def open_scope(self, t, sp):
+        th = self.th(t)
+        if sp is None or len(th["scopes"]) >= STACK_CAP:
+            th["guards"].append(("scope", None))
+            return
+        sc = {"kind": "parent", "items": self.issue(sp), "sampled": any(it["sampled"] for it in sp["items"]),
+              "open": [], "entries": [], "qlen": 0, "owner": sp, "to_owner": []}
+        th["scopes"].append(sc)
+        th["guards"].append(("scope", sc))
+
+    def drop_record(self, t, sp, pos):
+        if sp is None:
+            return
+        for it in sp["items"]:
+            if it["sampled"]:
+                self.touch(t)
+                att = [x for (rk, x) in sp["attached"] if rk == it["root"]]
+                props = list(sp["props"])
+                events = []
+                for x in att:
+                    if x[0] == "props":
+                        props += x[1]
+                    else:
+                        events.append((x[1], x[2]))
+                self.deliver(sp["name"], it, it["parent"], props, events, "span")
+        if sp["root_key"]:
+            self.touch(t)
+            if sp["root_key"] != "U":
+                tr = self.traces[sp["root_key"]]
+                tr["commit_pos"] = pos
+                tr["commit_thread"] = t
+
+
+def ad_finishes(kind, call, result):
+    return (kind == "inSpan" and call == "poll" and result != "pending") or \
+           (kind == "stream" and call == "poll_next" and result == "none") or \
+           (kind == "sink" and call == "poll_close" and result != "pending")
 
 
 def spec_of(lines):
@@ -328,7 +366,7 @@ class Gen:
         self.mode = mode
         self.k = dict(threads=1 + rng.below(3), ops=10 + rng.below(60), cycle_density=rng.below(4), cancelable=rng.chance(1, 2),
                       unsampled=rng.chance(1, 4), multi=rng.chance(1, 3), same_trace_multi=False, exits=rng.chance(1, 3),
-                      late_reporter=rng.chance(1, 12), no_reporter=rng.chance(1, 25))
+                      late_reporter=rng.chance(1, 12), no_reporter=rng.chance(1, 25), adapters=False)
         if knobs:
             self.k.update(knobs)
         self.s = Spec()
@@ -337,6 +375,9 @@ class Gen:
         self.vars = 0
         self.trace_ctr = 0
         self.pushed = {}
+        self.calls = {}      # thread -> [(adapter, guard depth at entry)]
+        self.done_ads = set()
+        self.nad = 0
 
     # ------------------------------------------------------------------ emit
     def emit(self, t, text):
@@ -470,6 +511,80 @@ class Gen:
     def op_exit(self, t):
         self.emit(t, "exit")
 
+    # adapters (C13 / C14)
+    CALLS = {"inSpan": ["poll"], "enterOnPoll": ["poll"], "stream": ["poll_next"],
+             "sink": ["poll_ready", "start_send", "poll_flush", "poll_close"]}
+    RESULTS = {"poll": ["pending", "ready"], "poll_next": ["pending", "item", "none"], "poll_ready": ["pending", "ready", "err"],
+               "start_send": ["ready", "err"], "poll_flush": ["pending", "ready", "err"], "poll_close": ["pending", "ready", "err"]}
+
+    def op_ad_new(self, t, kind, arg):
+        self.nad += 1
+        a = "a%d" % self.nad
+        self.emit(t, "adNew %s %s %s" % (a, kind, arg))
+        return a
+
+    def op_ad_poll(self, t, a):
+        ad = self.s.adapters[a]
+        call = self.r.pick(self.CALLS[ad["kind"]])
+        self.calls.setdefault(t, []).append((a, len(self.s.th(t)["guards"])))
+        self.emit(t, "adPoll %s %s" % (a, call))
+
+    def op_ad_end(self, t):
+        a, _ = self.calls[t].pop()
+        ad = self.s.adapters[a]
+        res = self.r.pick(self.RESULTS[ad["call"]])
+        if ad_finishes(ad["kind"], ad["call"], res) and ad["held"] and not self.can_finish(ad["span"]):
+            res = "pending" if "pending" in self.RESULTS[ad["call"]] else "ready"
+            if ad_finishes(ad["kind"], ad["call"], res):
+                res = self.RESULTS[ad["call"]][0]
+        self.emit(t, "adEnd %s %s" % (a, res))
+        if ad_finishes(ad["kind"], ad["call"] or "", res) or not self.s.adapters[a]["held"] and ad["kind"] != "enterOnPoll" and res != "pending":
+            self.done_ads.add(a)
+
+    def op_ad_drop(self, t, a):
+        self.emit(t, "adDrop %s" % a)
+
+    def in_call_top(self, t):
+        """the adapter call whose guard is the most recent guard of thread t, if any"""
+        c = self.calls.get(t) or []
+        if c and len(self.s.th(t)["guards"]) == c[-1][1] + 1:
+            return c[-1][0]
+        return None
+
+    def busy_ads(self):
+        return set(a for cs in self.calls.values() for a, _ in cs)
+
+    def can_finish(self, sp):
+        """like can_drop, for a span held by an adapter"""
+        if sp is None:
+            return True
+        if sp["var"] in self.scoped_owners_rec(exclude_top_of_call=True):
+            return False
+        if sp["root_key"] and sp["root_key"] != "U":
+            key = sp["root_key"]
+            for w, o in self.s.spans.items():
+                if o is not None and any(it["root"] == key for it in o["items"]):
+                    return False
+            for b, ad in self.s.adapters.items():
+                if ad["held"] and ad["span"] is not None and ad["span"] is not sp and any(it["root"] == key for it in ad["span"]["items"]):
+                    return False
+            n = 0
+            for th in self.s.threads.values():
+                for sc in th["scopes"]:
+                    if any(it["root"] == key for it in sc["items"]):
+                        n += 1
+            if n > 1:      # only the adapter's own scope may be open
+                return False
+        return True
+
+    def scoped_owners_rec(self, exclude_top_of_call=False):
+        out = {}
+        for th in self.s.threads.values():
+            for sc in th["scopes"]:
+                if sc["owner"] is not None:
+                    out[sc["owner"]["var"]] = out.get(sc["owner"]["var"], 0) + 1
+        return set(v for v, n in out.items() if n > (1 if exclude_top_of_call else 0))
+
     # ------------------------------------------------------------------ program shapes
     def prologue(self):
         nt = self.k["threads"]
@@ -482,13 +597,33 @@ class Gen:
         s = self.s
         for t in list(self.live_threads()):
             while s.th(t)["guards"]:
-                self.op_close(t)
+                if self.in_call_top(t) is not None:
+                    a, _ = self.calls[t].pop()
+                    self.emit(t, "adEnd %s pending" % a if "pending" in self.RESULTS[s.adapters[a]["call"]] else "adEnd %s err" % a)
+                else:
+                    self.op_close(t)
+        if drop_all:
+            lt = self.live_threads() or [0]
+            # adapters holding non-root spans first, then those holding roots
+            order = sorted(s.adapters, key=lambda a: 1 if (s.adapters[a]["held"] and s.adapters[a]["span"] and s.adapters[a]["span"]["root_key"]) else 0)
+            nonroot = [a for a in order if not (s.adapters[a]["held"] and s.adapters[a]["span"] and s.adapters[a]["span"]["root_key"])]
+            for a in nonroot:
+                self.op_ad_drop(self.r.pick(lt), a)
+            self.root_ads = [a for a in order if a not in nonroot]
         if drop_all:
             # children first, roots last, so that everything finishes before its root
             order = [v for v, sp in s.spans.items() if sp is None or not sp["root_key"]] + \
                     [v for v, sp in s.spans.items() if sp is not None and sp["root_key"]]
             lt = self.live_threads() or [0]
             for v in order:
+                sp = s.spans.get(v)
+                if sp is not None and sp["root_key"] and getattr(self, "root_ads", None):
+                    pass
+                self.op_drop(self.r.pick(lt), v) if not (sp is not None and sp["root_key"]) else None
+            # roots last: adapter-held roots and plain roots, children are all finished by now
+            for a in getattr(self, "root_ads", []):
+                self.op_ad_drop(self.r.pick(lt), a)
+            for v in [v for v in order if s.spans.get(v) is not None and s.spans[v]["root_key"]]:
                 self.op_drop(self.r.pick(lt), v)
         self.op_cycle()
         self.op_cycle()
@@ -542,10 +677,43 @@ class Gen:
                     choices.append(("collect", 4))
             if s.lspans:
                 choices.append(("toRecords", 1))
-            if self.k["exits"] and len(lt) > 1 and r.chance(1, 25):
+            incall = self.in_call_top(t)
+            if incall is not None:
+                # the adapter's own guard is on top: it is released by adEnd, never by close/collect
+                choices = [(x, w) for x, w in choices if x not in ("close", "lWithProps", "collect")]
+                choices.append(("adEnd", 8))
+            if self.k["adapters"]:
+                free = [a for a in s.adapters if a not in self.busy_ads() and a not in self.done_ads]
+                movable = [v for v in spans if self.can_move(v)]
+                if movable and len(s.adapters) < 4:
+                    choices.append(("adNew", 4))
+                if len(s.adapters) < 4:
+                    choices.append(("adNewEop", 1))
+                if free:
+                    choices.append(("adPoll", 7))
+                idle = [a for a in s.adapters if a not in self.busy_ads()]
+                if idle and r.chance(1, 6):
+                    choices.append(("adDrop", 2))
+            if self.k["exits"] and len(lt) > 1 and r.chance(1, 25) and not self.calls.get(t):
                 choices.append(("exit", 2))
             c = r.weighted(choices)
-            if c == "root":
+            if c == "adEnd":
+                self.op_ad_end(t)
+                self.probe(t)
+            elif c == "adNew":
+                self.op_ad_new(t, r.pick(self.k.get("adapter_kinds", ["inSpan"])), r.pick(movable))
+            elif c == "adNewEop":
+                self.op_ad_new(t, "enterOnPoll", hx(self.name("p")))
+            elif c == "adPoll":
+                self.probe(t)
+                self.op_ad_poll(t, r.pick(free))
+                self.probe(t)
+            elif c == "adDrop":
+                a = r.pick(idle)
+                ad = s.adapters[a]
+                if not ad["held"] or self.can_finish(ad["span"]):
+                    self.op_ad_drop(t, a)
+            elif c == "root":
                 smp = not (self.k["unsampled"] and r.chance(1, 3))
                 self.op_root(t, smp)
             elif c == "child1":
@@ -654,10 +822,16 @@ class Gen:
                 for sc in th["scopes"]:
                     if any(it["root"] == key for it in sc["items"]):
                         return False
+            for ad in s.adapters.values():
+                if ad["held"] and ad["span"] is not None and any(it["root"] == key for it in ad["span"]["items"]):
+                    return False
         return True
 
     def can_scope(self, v):
         return True
+
+    def can_move(self, v):
+        return v not in self.scoped_owners()
 
     def local_attach_ok(self, t):
         """an attachment with no local span open goes to the span set as local parent; in a
